@@ -1011,6 +1011,31 @@ func genC04(c *Ctx) {
 			labOf[i] = append(labOf[i], fmt.Sprintf("pass %d position %d of the interleaved sequence", pass, pos))
 		}
 	}
+	// ordered pairs: every input directly after one input of each format (a file that two table rows
+	// claim must be described the same way whatever was recognised just before it)
+	var preds []int
+	seenFmt := map[string]bool{}
+	for i, in := range inputs {
+		key := filepath.Ext(in.name)
+		if key == "" {
+			key = strings.TrimRight(in.name, "0123456789_")
+		}
+		if !seenFmt[key] && !in.big {
+			seenFmt[key] = true
+			preds = append(preds, i)
+		}
+	}
+	for i := range inputs {
+		if inputs[i].big {
+			continue
+		}
+		for _, p := range preds {
+			inspectObs(filepath.Join(dir, fmt.Sprintf("i%03d", p), inputs[p].name))
+			o, _ := inspectObs(filepath.Join(dir, fmt.Sprintf("i%03d", i), inputs[i].name))
+			obsOf[i] = append(obsOf[i], o.String())
+			labOf[i] = append(labOf[i], fmt.Sprintf("directly after %s (%s)", inputs[p].name, inputs[p].tag))
+		}
+	}
 	for i, in := range inputs {
 		l, first, firstLabel := c04Distinct(obsOf[i], labOf[i])
 		c.Emit("repeat:interleaved-"+in.tag, SL{S(in.name), SB(in.data), SB([]byte(first)), S(firstLabel)}, l)
